@@ -216,17 +216,33 @@ func runRound(r *vk.Run, idx, K, wantAcq, maxTry, kills int, rng *rand.Rand, hb 
 			d := time.Duration(rng.Intn(30)+1) * time.Millisecond
 			pick := rng.Int()
 			time.Sleep(d)
-			mu.Lock()
-			var ids []int
-			for id := range alive {
-				ids = append(ids, id)
-			}
-			sort.Ints(ids)
+			// victims are contenders that have started their loop (journal not empty); waiting
+			// for one is scheduling of the workload, not part of any verdict
 			var victim *live
-			if len(ids) > 0 {
-				victim = alive[ids[pick%len(ids)]]
+			for tries := 0; tries < 4000 && victim == nil; tries++ {
+				mu.Lock()
+				var ids []int
+				for id := range alive {
+					if alive[id].c.KillSent != 0 {
+						continue // already killed, not yet reaped: its KILL-sent stamp must stay the first one
+					}
+					if st, err := os.Stat(filepath.Join(dir, "journals", fmt.Sprintf("%03d.log", id))); err == nil && st.Size() > 0 {
+						ids = append(ids, id)
+					}
+				}
+				nAlive := len(alive)
+				sort.Ints(ids)
+				if len(ids) > 0 {
+					victim = alive[ids[pick%len(ids)]]
+				}
+				mu.Unlock()
+				if nAlive == 0 {
+					return
+				}
+				if victim == nil {
+					time.Sleep(5 * time.Millisecond)
+				}
 			}
-			mu.Unlock()
 			if victim == nil {
 				return
 			}
